@@ -17,6 +17,7 @@ func checkC14(c *Ctx) {
 	c.Rule("C14.R1", "the line is the subject and the polygon the clipping operand of a CLIPLINE Construct; every line of a MultiLineString becomes a contour (full range, identity order)")
 	c.Rule("C14.R2", "each returned piece drops exactly the one trailing vertex that the clipper-result converter appends (strip matches close), for every piece")
 	c.Rule("C14.R3", "in CLIPLINE mode the external clipper does not add the subject's closing segment (last→first) to the sweep")
+	c.Rule("C14.R5", "the clipping helper Clip goes through converts every contour of the subject and every polygon of the clipping operand, each ring and vertex at its own index (no member of either operand is skipped), and closes result rings with exactly one vertex")
 	c.Rule("C14.R4", "Clip hands every line to the clipper: a conditional return before the clipper call, or a skipped member, is allowed only under a condition implying that the closed bounding boxes of the line and of the polygon share no point (!Overlaps), and such a return yields an empty result")
 	info := c.P.Pkg("geom").TypesInfo
 	a := &c01{c: c, info: info}
@@ -129,6 +130,13 @@ func checkC14(c *Ctx) {
 		}
 	}
 	c14dep(c)
+	// R5: the shared clipping helper (C01.R2/R3's analysis, filed here)
+	c.Alias("C01.R2", "C14.R5")
+	c.Alias("C01.R3", "C14.R5")
+	a.r2r3()
+	c.Alias("C01.R2", "")
+	c.Alias("C01.R3", "")
+	c.Floor("C14.R5", 3)
 	c.Floor("C14.R1", 2)
 	c.Floor("C14.R2", 3)
 	c.Floor("C14.R3", 1)
